@@ -185,9 +185,9 @@ def describe(calc, data=None):
     return cl
 
 
-def within_integration_accuracy(setup, residual, r4, tight, loose=1e-3, NGFmax=8):
+def within_integration_accuracy(setup, residual, r4, tight, loose=np.inf, NGFmax=8):
     """Decides 'holds to within the calculator's Brillouin-zone integration accuracy' by refinement instead of a guessed
-    constant: a residual above the tight tolerance is accepted only if it is small (<= loose) AND shrinks at least by half
+    constant: a residual above the tight tolerance is accepted only if it shrinks at least by half
     when the same data are evaluated with a denser k-mesh (NGFmax=8 instead of the default 4).
     residual: function(calculator) -> relative residual.  Returns (ok, r_refined or None)."""
     if r4 <= tight:
